@@ -85,6 +85,12 @@ pub fn path_endpoints<K: Kit>(kit: &K, sp: &K::SP, problem: &Problem, path: &[Ve
     if !(d <= problem.goal.radius) {
         f.push(("last-state-not-in-goal".into(), format!("d(last, goal centre)={d} > radius {}", problem.goal.radius)));
     }
+    if let Some((i, lo, hi)) = problem.goal.window {
+        let x = path.last().unwrap()[i];
+        if !(lo <= x && x <= hi) {
+            f.push(("last-state-not-in-goal".into(), format!("coordinate {i} of the last state = {x} outside the goal's window [{lo}, {hi}]")));
+        }
+    }
     f
 }
 
